@@ -70,9 +70,9 @@ fn video_step(m: &mut Muxer<NullSink>, prev: Option<f64>, frame: &[u8], frame_ha
         assert!(after.w.last_video.unwrap().is_keyframe == key, "stored key flag = submitted flag");
         assert!(after.w.last_video.unwrap().len == frame.len() || true);
     }
-    kani::cover!(c == Cls::Ok, "accepted");
-    kani::cover!(c == Cls::NotFinite, "NaN/inf rejected");
-    kani::cover!(c == Cls::Negative, "negative rejected");
+    crate::vcover!(c == Cls::Ok, "accepted");
+    crate::vcover!(c == Cls::NotFinite, "NaN/inf rejected");
+    crate::vcover!(c == Cls::Negative, "negative rejected");
     core::mem::forget(r);
 }
 
@@ -81,7 +81,7 @@ macro_rules! video_fresh {
         h!($name, 14, {
             let mut m = new_muxer($codec, Aud::Opus);
             video_step(&mut m, None, $frame, $cfg, $prop_contract, $prop_trace);
-            kani::cover!(true, "reached");
+            crate::vcover!(true, "reached");
             core::mem::forget(m);
         });
     };
@@ -93,7 +93,7 @@ macro_rules! video_after_key {
             let r0 = m.write_video($t0, key_frame($codec), true);
             assert!(r0.is_ok(), "prefix keyframe accepted");
             video_step(&mut m, Some($t0), $frame, false, $prop_contract, $prop_trace);
-            kani::cover!(true, "reached");
+            crate::vcover!(true, "reached");
             core::mem::forget((m, r0));
         });
     };
@@ -111,7 +111,7 @@ video_fresh!(c04_video_fresh_av1_key, true, false, VideoCodec::Av1, &AV1_KEY, tr
 h!(c04_video_fresh_h264_key, 18, {
     let mut m = new_muxer(VideoCodec::H264, Aud::None);
     video_step(&mut m, None, &H264_KEY, true, true, false);
-    kani::cover!(true, "reached");
+    crate::vcover!(true, "reached");
     core::mem::forget(m);
 });
 //@ prop=C04,C12 tier=quick cost=90 fns="api::Muxer::write_video,Mp4Writer::write_video_sample_with_dts" bound="VP9 muxer after one keyframe at t=0; any f64 pts, any key flag; 4-byte frame" unwind=14 stubs="fmt::format"
@@ -164,8 +164,8 @@ fn audio_step(m: &mut Muxer<NullSink>, first_video: Option<f64>, prev_audio: Opt
         assert!(before.m == after.m, "rejected write_audio changed the muxer bookkeeping");
         assert!(before.w == after.w, "rejected write_audio changed the writer state (queued durations, last delta)");
     }
-    kani::cover!(c == Cls::Ok, "accepted");
-    kani::cover!(c != Cls::Ok, "rejected");
+    crate::vcover!(c == Cls::Ok, "accepted");
+    crate::vcover!(c != Cls::Ok, "rejected");
     core::mem::forget(r);
 }
 
@@ -226,7 +226,7 @@ h!(c05_rejected_first_video_then_audio, 14, {
     let ra = m.write_audio(ta, &OPUS_PKT);
     // as if the video call had never been made: no video yet, so audio must be refused
     assert!(classify(&ra) != Cls::Ok, "audio accepted although no video frame was ever accepted");
-    kani::cover!(t == 2.0, "reached");
+    crate::vcover!(t == 2.0, "reached");
     core::mem::forget((m, r, ra));
 });
 
@@ -243,8 +243,8 @@ h!(c04_builder_build, 6, {
         Err(MuxerError::MissingVideoConfig) => assert!(!with_video, "MissingVideoConfig although video was configured"),
         Err(_) => panic!("unexpected builder error"),
     }
-    kani::cover!(r.is_ok(), "built");
-    kani::cover!(r.is_err(), "refused");
+    crate::vcover!(r.is_ok(), "built");
+    crate::vcover!(r.is_err(), "refused");
     core::mem::forget(r);
 });
 
@@ -254,7 +254,7 @@ h!(c12_encode_video_h264_sym4, 9, {
     let mut m = new_muxer(VideoCodec::H264, Aud::None);
     let d: [u8; 4] = kani::any();
     let r = m.encode_video(&d, kani::any());
-    kani::cover!(r.is_err(), "rejected");
+    crate::vcover!(r.is_err(), "rejected");
     core::mem::forget((m, r));
 });
 //@ prop=C12 tier=quick cost=60 fns="api::Muxer::encode_video,is_keyframe,is_vp9_keyframe" bound="fresh VP9 muxer; all frames of 2 bytes and of 0 bytes, any duration_ms" unwind=9 stubs="fmt::format"
@@ -265,7 +265,7 @@ h!(c12_encode_video_vp9_short, 9, {
     let e: [u8; 0] = [];
     let r2 = m.encode_video(&e[..], kani::any());
     assert!(matches!(r2, Err(MuxerError::EmptyVideoFrame { .. })), "an empty frame is reported, not a panic");
-    kani::cover!(r.is_err(), "rejected");
+    crate::vcover!(r.is_err(), "rejected");
     core::mem::forget((m, r, r2));
 });
 //@ prop=C12 tier=quick cost=200 fns="api::Muxer::encode_video,is_keyframe,write_video" bound="fresh H.264 muxer; all 3-byte frames and the empty frame" unwind=8 stubs="fmt::format" timeout=1200 mem=20
@@ -276,7 +276,7 @@ h!(c12_encode_video_h264_sym3, 8, {
     let r = m.encode_video(&d, kani::any());
     let r2 = m.encode_video(&e[..], kani::any());
     assert!(r2.is_err());
-    kani::cover!(r.is_err(), "rejected");
+    crate::vcover!(r.is_err(), "rejected");
     core::mem::forget((m, r, r2));
 });
 //@ prop=C12 tier=thorough cost=250 fns="api::Muxer::encode_video,is_keyframe,write_video" bound="fresh H.265 muxer; all 3-byte frames and the empty frame" unwind=8 stubs="fmt::format" timeout=1200 mem=20
@@ -287,7 +287,7 @@ h!(c12_encode_video_h265_sym3, 8, {
     let r = m.encode_video(&d, kani::any());
     let r2 = m.encode_video(&e[..], kani::any());
     assert!(r2.is_err());
-    kani::cover!(r.is_err(), "rejected");
+    crate::vcover!(r.is_err(), "rejected");
     core::mem::forget((m, r, r2));
 });
 //@ prop=C12 tier=thorough cost=600 fns="api::Muxer::encode_video,is_keyframe,write_video,extract_av1_config" bound="fresh AV1 muxer; all 3-byte frames and the empty frame" unwind=34 stubs="fmt::format" timeout=2400 mem=24
@@ -298,7 +298,7 @@ h!(c12_encode_video_av1_sym3, 34, {
     let r = m.encode_video(&d, kani::any());
     let r2 = m.encode_video(&e[..], kani::any());
     assert!(r2.is_err());
-    kani::cover!(r.is_err(), "rejected");
+    crate::vcover!(r.is_err(), "rejected");
     core::mem::forget((m, r, r2));
 });
 //@ prop=C12 tier=quick cost=90 fns="api::Muxer::encode_audio,write_audio" bound="VP9+Opus after a keyframe; all 2-byte packets, any sample count; also without audio track" unwind=9 stubs="fmt::format"
@@ -312,8 +312,8 @@ h!(c12_encode_audio, 9, {
     let mut n = new_muxer(VideoCodec::Vp9, Aud::None);
     let r2 = n.encode_audio(&OPUS_PKT, kani::any());
     assert!(matches!(r2, Err(MuxerError::AudioNotConfigured)));
-    kani::cover!(r.is_ok(), "accepted");
-    kani::cover!(r.is_err(), "rejected");
+    crate::vcover!(r.is_ok(), "accepted");
+    crate::vcover!(r.is_err(), "rejected");
     core::mem::forget((m, n, r0, r, r1, r2));
 });
 
@@ -361,8 +361,8 @@ fn video_dts_step(m: &mut Muxer<NullSink>, prev_dts: Option<f64>, frame: &[u8], 
         assert!(before.w == after.w, "rejected write_video_with_dts changed the writer state");
         assert!(before.v_prev == after.v_prev, "rejected write_video_with_dts changed a queued sample");
     }
-    kani::cover!(c == Cls::Ok, "accepted");
-    kani::cover!(c == Cls::MissingConfig || c == Cls::FirstNotKey, "rejected by the writer");
+    crate::vcover!(c == Cls::Ok, "accepted");
+    crate::vcover!(c == Cls::MissingConfig || c == Cls::FirstNotKey, "rejected by the writer");
     core::mem::forget(r);
 }
 //@ prop=C04,C12 tier=quick cost=120 fns="api::Muxer::write_video_with_dts,Mp4Writer::write_video_sample_with_dts" bound="fresh VP9 muxer; any f64 pts and dts, any key flag; valid keyframe" unwind=14 stubs="fmt::format" timeout=1200 covers_optional="rejected by the writer"
@@ -400,6 +400,6 @@ h!(c05_rejected_first_dts_video_then_audio, 14, {
     assert!(r.is_err(), "a first frame without configuration is rejected");
     let ra = m.write_audio(kani::any(), &OPUS_PKT);
     assert!(classify(&ra) != Cls::Ok, "audio accepted although no video frame was ever accepted");
-    kani::cover!(true, "reached");
+    crate::vcover!(true, "reached");
     core::mem::forget((m, r, ra));
 });
